@@ -670,7 +670,8 @@ fn exhaustive_cases(n: usize, fuzzy: bool) -> Vec<Case> {
         wss: vec![Ws { root: "/r1".into(), id: 1, pkg: None }, Ws { root: "/r1/lib".into(), id: 3, pkg: None }],
         rules: vec![],
     };
-    let paths = ["/r1/a/b.lua", "/r1/b.lua", "/r1/lib/a/b/init.lua", "/r1/c/a/b.lua", "/r1/a/b/init.lua"];
+    // includes parent-module files (`a/init.lua`, `a.lua`) next to a child module (`a/b.lua`)
+    let paths = ["/r1/a/b.lua", "/r1/b.lua", "/r1/lib/a/b/init.lua", "/r1/c/a/b.lua", "/r1/a/b/init.lua", "/r1/a/init.lua", "/r1/a.lua"];
     let mut alphabet: Vec<Op> = Vec::new();
     for f in 1..=2u32 {
         for p in paths {
@@ -718,6 +719,13 @@ pub fn corpus() -> Vec<Case> {
         d(true, vec![Op::Add(1, "/r1/a/b.lua".into()), Op::Add(2, "/r1/a/b/init.lua".into()), Op::Remove(1), Op::Sizes, q("a.b"), q("b"), Op::Remove(2), Op::Sizes, q("b")]),
         d(true, vec![Op::Add(1, "/r1/plugin/ts.lua".into()), Op::Add(2, "/r1/lua/ts.lua".into()), q("ts"), Op::Hide(2, true), q("ts"), q("lua.ts")]),
         d(false, vec![Op::Add(1, "/r1/x/init.lua".into()), q("x"), q("x.init"), Op::Node("x".into())]),
+        // parent module next to child modules: edit (re-submit) / remove the parent, then require the child
+        d(false, vec![Op::Add(1, "/r1/a/init.lua".into()), Op::Add(2, "/r1/a/b.lua".into()), Op::Add(1, "/r1/a/init.lua".into()), Op::Sizes,
+            q("a.b"), q("a"), Op::Node("a".into()), Op::Remove(1), Op::Sizes, q("a.b"), q("a"), Op::Node("a".into()), Op::Node("".into())]),
+        d(true, vec![Op::Add(1, "/r1/a/init.lua".into()), Op::Add(2, "/r1/a/b.lua".into()), Op::Add(1, "/r1/a/init.lua".into()), Op::Sizes,
+            q("a.b"), q("a"), q("b"), Op::Remove(1), Op::Sizes, q("a.b"), q("a"), q("b"), Op::Node("a".into())]),
+        d(false, vec![Op::Add(1, "/r1/a.lua".into()), Op::Add(2, "/r1/a/b.lua".into()), Op::Add(3, "/r1/a/b/c.lua".into()), Op::Add(2, "/r1/a/b.lua".into()),
+            q("a.b.c"), q("a.b"), q("a"), Op::Remove(2), Op::Sizes, q("a.b.c"), q("a.b"), Op::Node("a.b".into()), Op::Remove(1), q("a.b.c"), Op::Sizes]),
     ]
 }
 
@@ -865,6 +873,7 @@ pub fn run(args: &Args, report: &mut Report) {
         report.extra.insert("exhaustive_scope".into(), json!("all histories of length <= 4 (fuzzy) / <= 3 (strict) over {add f p | f in 1..2, p in 5 paths} + {remove 1, remove 2, hide 1}, 6 queries each; plus random"));
     } else {
         cases.extend(exhaustive_cases(2, true));
+        cases.extend(exhaustive_cases(2, false));
         for _ in 0..500 {
             cases.push(gen_case(&mut rng, 10));
         }
